@@ -332,9 +332,12 @@ func (w *world) ancestors(name string) (order []string, ok bool) {
 			}
 		}
 		delete(stack, n)
-		if !seen[n] {
-			seen[n] = true
+		if seen[n] {
+			// reached twice (a diamond): whether its facts and rules
+			// count once or twice is not specified
+			return false
 		}
+		seen[n] = true
 		order = append(order, n)
 		return true
 	}
